@@ -65,11 +65,11 @@ theorem lookup_filter_ne (s : Seen) (k k' : Nat) :
       by_cases hk : k' = k
       · subst hk
         have : (k' == a) = false := by simpa using (fun e : k' = a => ha e.symm)
-        simp [List.filter_cons, hne, List.lookup_cons, this, ih]
+        simp [hne, List.lookup_cons, this, ih]
       · by_cases hka : k' = a
-        · subst hka; simp [List.filter_cons, hne, List.lookup_cons, hk]
+        · subst hka; simp [hne, hk]
         · have : (k' == a) = false := by simpa using hka
-          simp [List.filter_cons, hne, List.lookup_cons, this, ih, hk]
+          simp [hne, List.lookup_cons, this, ih, hk]
 
 theorem lookup_filter_eq (s : Seen) (k k' : Nat) :
     (s.filter (fun e => e.1 == k)).lookup k' = if k' = k then s.lookup k' else none := by
@@ -80,21 +80,21 @@ theorem lookup_filter_eq (s : Seen) (k k' : Nat) :
     by_cases ha : a = k
     · subst ha
       by_cases hk : k' = a
-      · subst hk; simp [List.lookup_cons]
+      · subst hk; simp
       · have : (k' == a) = false := by simpa using hk
         simp [List.lookup_cons, this, ih, hk]
     · have hne : (a == k) = false := by simpa using ha
       by_cases hk : k' = k
       · subst hk
         have : (k' == a) = false := by simpa using (fun e : k' = a => ha e.symm)
-        simp [List.filter_cons, hne, List.lookup_cons, this, ih]
-      · simp [List.filter_cons, hne, ih, hk]
+        simp [hne, List.lookup_cons, this, ih]
+      · simp [hne, ih, hk]
 
 theorem lookup_seenSet (s : Seen) (k v k' : Nat) :
     (seenSet s k v).lookup k' = if k' = k then some v else s.lookup k' := by
   unfold seenSet
   by_cases hk : k' = k
-  · subst hk; simp [List.lookup_cons]
+  · subst hk; simp
   · have : (k' == k) = false := by simpa using hk
     simp [List.lookup_cons, this, lookup_filter_ne, hk]
 
